@@ -26,7 +26,9 @@ ACCS = {
 # value: ('a',i) arg | ('k',c) const | ('iv',) | ('iva',i) iv+arg | ('ivk',c) iv*c | ('lc',) loop-carried/outer computed
 PALETTE = {
     "acc1": [(("a", 0), ("a", 1)), (("a", 2), ("a", 1)), (("a", 0), ("a", 3)), (("iv",), ("a", 1)), (("iva", 2), ("k", 7)),
-             (("a", 0), ("ivk", 3)), (("ivk", 4), ("prev+", 1)), (("lck", 3), ("a", 1)), (("lc",), ("iva", 0))],
+             (("a", 0), ("ivk", 3)), (("ivk", 4), ("prev+", 1)), (("lck", 3), ("a", 1)), (("lc",), ("iva", 0)),
+             # results of the most recent loop with carried values at this level (fall back to arguments elsewhere)
+             (("res", 0), ("res", 1)), (("res", 1), ("a", 3))],
     "acc2": [(("a", 0), ("a", 1), ("k", 5)), (("a", 3), ("a", 1), ("k", 5)), (("iv",), ("a", 1), ("a", 2))],
     "rocc1": [(("a", 0), ("a", 1), ("a", 2), ("a", 3)), (("a", 0), ("a", 3), ("a", 2), ("a", 3)), (("a", 2), ("a", 1), ("a", 2), ("a", 1)),
               (("iv",), ("a", 1), ("a", 2), ("a", 3)), (("a", 0), ("a", 1), ("a", 2), ("ivk", 5))],
@@ -61,6 +63,7 @@ class Render:
         self.accs = []  # stack of loop-carried i32 values (None for loops without one)
         self.prev = None
         self.last_state = {}  # accelerator -> SSA name of the setup result that is certainly still in effect here
+        self.results = [[]]  # per open block: results of the most recent loop with carried values
 
     def fresh(self, p="v"):
         self.n += 1
@@ -81,6 +84,9 @@ class Render:
             r = self.fresh("p")
             self.emit(f"{r} = arith.addi {self.prev}, %a{v[1]} : i32", ind)
             return r
+        if k == "res":
+            rs = self.results[-1] if self.results else []
+            return rs[v[1]] if v[1] < len(rs) else f"%a{v[1] + 1}"
         if k in ("lc", "lck"):
             carried = [a for a in self.accs if a is not None]
             base = carried[-1] if carried else "%a2"
@@ -120,7 +126,7 @@ class Render:
                 out.add(b[1])
             elif b[0] in ("call", "lcall"):
                 return None
-            elif b[0] in ("for", "forc"):
+            elif b[0] in ("for", "forc", "forc2"):
                 t = self._touched(b[2])
                 if t is None:
                     return None
@@ -142,7 +148,7 @@ class Render:
 
     def stmt(self, s, ind):
         k = s[0]
-        if k in ("for", "forc"):
+        if k in ("for", "forc", "forc2"):
             self._forget(self._touched(s[2]))  # at the loop head on iteration >= 2
             saved = dict(self.last_state)
             self._stmt(s, ind)
@@ -200,8 +206,10 @@ class Render:
             self.emit(f"scf.for {iv} = {lb} to {ub} step {stp} {{", ind)
             self.ivs.append(iv)
             self.accs.append(None)
+            self.results.append([])
             for b in body:
                 self.stmt(b, ind + 1)
+            self.results.pop()
             self.accs.pop()
             self.ivs.pop()
             self.emit("}", ind)
@@ -212,8 +220,10 @@ class Render:
             self.emit(f"{res} = scf.for {iv} = {lb} to {ub} step {stp} iter_args({acc} = %a0) -> (i32) {{", ind)
             self.ivs.append(iv)
             self.accs.append(acc)
+            self.results.append([])
             for b in body:
                 self.stmt(b, ind + 1)
+            self.results.pop()
             c = self.fresh("ivc")
             self.emit(f"{c} = arith.index_cast {iv} : index to i32", ind + 1)
             n = self.fresh("n")
@@ -226,17 +236,44 @@ class Render:
             self.accs.pop()
             self.ivs.pop()
             self.emit("}", ind)
+            self.results[-1] = [res]
+        elif k == "forc2":
+            # two loop-carried values with different updates; both results are visible behind the loop
+            _, bounds, body = s
+            iv, x, y, r1, r2 = self.fresh("i"), self.fresh("acc"), self.fresh("acd"), self.fresh("r"), self.fresh("q")
+            lb, ub, stp = BOUNDS[bounds]
+            self.emit(f"{r1}, {r2} = scf.for {iv} = {lb} to {ub} step {stp} iter_args({x} = %a0, {y} = %a1) -> (i32, i32) {{", ind)
+            self.ivs.append(iv)
+            self.accs.append(x)
+            self.results.append([])
+            for b in body:
+                self.stmt(b, ind + 1)
+            self.results.pop()
+            c = self.fresh("ivc")
+            self.emit(f"{c} = arith.index_cast {iv} : index to i32", ind + 1)
+            n1 = self.fresh("n")
+            self.emit(f"{n1} = arith.addi {x}, {c} : i32", ind + 1)
+            n2 = self.fresh("n")
+            self.emit(f"{n2} = arith.addi {y}, %a2 : i32", ind + 1)
+            self.emit(f"scf.yield {n1}, {n2} : i32, i32", ind + 1)
+            self.accs.pop()
+            self.ivs.pop()
+            self.emit("}", ind)
+            self.results[-1] = [r1, r2]
         elif k == "if":
             _, j, tb, eb = s
             before_if = dict(self.last_state)
             self.emit(f"scf.if %c{j}b {{", ind)
+            self.results.append([])
             for b in tb:
                 self.stmt(b, ind + 1)
             if eb is not None:
                 self.emit("} else {", ind)
                 self.last_state = dict(before_if)
+                self.results[-1] = []
                 for b in eb:
                     self.stmt(b, ind + 1)
+            self.results.pop()
             self.emit("}", ind)
         elif k == "call":
             self.emit("func.call @ext() : () -> ()", ind)
@@ -328,7 +365,7 @@ def has_cfg(prog):
     for s in prog:
         if s[0] == "cfg":
             return True
-        if s[0] in ("for", "forc") and has_cfg(s[2]):
+        if s[0] in ("for", "forc", "forc2") and has_cfg(s[2]):
             return True
         if s[0] == "if" and (has_cfg(s[2]) or (s[3] is not None and has_cfg(s[3]))):
             return True
@@ -340,7 +377,7 @@ def count_cfg(prog):
     for s in prog:
         if s[0] == "cfg":
             n += 1
-        elif s[0] in ("for", "forc"):
+        elif s[0] in ("for", "forc", "forc2"):
             n += count_cfg(s[2])
         elif s[0] == "if":
             n += count_cfg(s[2]) + (count_cfg(s[3]) if s[3] is not None else 0)
@@ -354,8 +391,8 @@ def random_prog(rnd, size, depth, accs, pal_limit, bounds_kinds, in_loop=False):
         r = rnd.random()
         if left >= 2 and depth > 0 and r < 0.45:
             inner = rnd.randint(1, left - 1)
-            kind = rnd.choice(["for", "for", "forc", "if", "ifelse"])
-            if kind in ("for", "forc"):
+            kind = rnd.choice(["for", "for", "forc", "forc2", "if", "ifelse"])
+            if kind in ("for", "forc", "forc2"):
                 out.append((kind, rnd.choice(bounds_kinds), random_prog(rnd, inner, depth - 1, accs, pal_limit, bounds_kinds, True)))
             elif kind == "if" or inner < 2:
                 out.append(("if", rnd.randint(0, 1), random_prog(rnd, inner, depth - 1, accs, pal_limit, bounds_kinds, in_loop), None))
@@ -417,6 +454,12 @@ def program_set(tier, seed, want_calls=True):
             for p3 in range(3):
                 add((("if", 0, (("cfg", "acc1", p1),), None), ("cfg", "acc1", p2), ("cfg", "acc1", p3)))
                 add((("if", 1, (("cfg", "acc1", p1),), (("cfg", "acc1", p3),)), ("cfg", "acc1", p2), ("cfg", "acc1", p3)))
+    # a loop carrying two values next to the accelerator state; both results feed a configuration behind the loop
+    for bk in ("args", "k05s2", "k42"):
+        for p1 in range(2):
+            for pr in (9, 10):
+                add((("cfg", "acc1", p1), ("forc2", bk, (("cfg", "acc1", 3),)), ("cfg", "acc1", pr)))
+                add((("forc2", bk, (("cfg", "acc1", p1), ("cfg", "acc1", 7))), ("cfg", "acc1", pr), ("cfg", "acc1", p1)))
     # two accelerators configured, then a call inside a conditional / loop followed by a new setup of only ONE of them,
     # then the other one is configured again behind it
     if want_calls:
